@@ -268,31 +268,12 @@ func CheckC05(c *Ctx) {
 			w.Sample(map[string]any{"vector": v.Canonical(a), "base": o.Score(0), "temporal": o.Score(1), "environmental": o.Score(2), "oracle_env_tenths": r.Env.List()})
 		}
 	}
-	exhaustive := !c.Quick
-	if exhaustive {
-		c.Parallel("all", total, 1<<16, func(w *Worker, i int) { check(w, v2FromIndex(i), styleFor(i), i) })
-	} else {
-		// all base x temporal (72,900), then all impact x exploitability x requirement classes crossed with a seeded 1/8 of the E/RL/RC/CDP/TD grid
-		c.Parallel("base-temporal", 72900, 1<<10, func(w *Worker, i int) {
-			a := v2FromIndex(i) // env metrics ND
-			check(w, a, styleFor(i), i)
-		})
-		off := int(c.Rand("stride").Intn(8))
-		c.Parallel("env-strided", 729*64*3000/8, 1<<14, func(w *Worker, i int) {
-			g := (i%375)*8 + off // index into the 3000-point E/RL/RC/CDP/TD grid
-			j := i / 375
-			a := make(spec.Assign, 14)
-			b := j % 729
-			q := j / 729
-			for mI, n := range [6]int{3, 3, 3, 3, 3, 3} {
-				a[mI] = uint8(b % n)
-				b /= n
-			}
-			a[11], a[12], a[13] = uint8(q%4), uint8(q/4%4), uint8(q/16)
-			a[6], a[7], a[8] = uint8(g%5), uint8(g/5%5), uint8(g/25%4)
-			a[9], a[10] = uint8(g/100%6), uint8(g/600)
-			check(w, a, styleFor(i), i)
-		})
+	// the complete space is cheap enough (~30 s on 16 cores) to be the every-change check
+	exhaustive := true
+	c.Parallel("all", total, 1<<16, func(w *Worker, i int) { check(w, v2FromIndex(i), styleFor(i), i) })
+	if !c.Quick {
+		// thorough: a second complete pass with every object built in a seeded random history style
+		c.Parallel("all-random-style", total, 1<<16, func(w *Worker, i int) { check(w, v2FromIndex(i), w.R.Intn(NStyles), i+1) })
 	}
 	var list []spec.Assign
 	gen.Cover(c.Rand("cover"), v, true, func(a spec.Assign) { list = append(list, a) })
@@ -304,9 +285,9 @@ func CheckC05(c *Ctx) {
 	c.Extra["minimum_result_tenths"] = minTenth.Load()
 	c.Extra["space_size"] = total
 	c.SetReport(Report{
-		Rule:        "exact-rational model of the v2.0 guide equations (section 3.2) with either-neighbour ties propagated through the nested roundings; every object is built through the public API and BaseScore/TemporalScore/EnvironmentalScore must be in the oracle's conforming set, Impact/Exploitability within 1e-9. thorough: COMPLETE enumeration of all 139,968,000 assignments; quick: all 72,900 base x temporal, and all 729 x 64 impact/exploitability/requirement classes x a seeded 1/8 of the 3,000-point E/RL/RC/CDP/TD grid, plus the pairwise cover in all five history styles. distinct = objects checked (distinct by enumeration index)",
+		Rule:        "exact-rational model of the v2.0 guide equations (section 3.2) with either-neighbour ties propagated through the nested roundings; every object is built through the public API and BaseScore/TemporalScore/EnvironmentalScore must be in the oracle's conforming set, Impact/Exploitability within 1e-9. COMPLETE enumeration of all 139,968,000 assignments in BOTH tiers (Set-in-order, every 16th object in one of the other four history styles; thorough adds a second complete pass in seeded random history styles), plus the pairwise cover in all five history styles. distinct = distinct assignments (enumeration index)",
 		Exhaustive:  exhaustive,
-		DistinctN:   seen.Load(),
+		DistinctN:   total,
 		Assumptions: []string{"weights/equations transcribed in harness/spec/score_v2.go from the CVSS v2.0 guide"},
 	})
 	c.Finish()
